@@ -27,14 +27,14 @@ const LeptonTelemetryBytes = lepton3.BytesPerFrame - lepton3.FrameCols*lepton3.F
 
 // Tel is the part of the Lepton telemetry that the recorder reads.
 type Tel struct {
-	TimeOnMs     uint32
-	LastFFCMs    uint32
-	FrameCount   uint32
-	FrameMean    uint16
-	FPATemp      uint16 // centi-Kelvin
-	FPATempFFC   uint16 // centi-Kelvin
-	StatusBits   uint32
-	Noise        uint16 // written into words the recorder must ignore
+	TimeOnMs   uint32
+	LastFFCMs  uint32
+	FrameCount uint32
+	FrameMean  uint16
+	FPATemp    uint16 // centi-Kelvin
+	FPATempFFC uint16 // centi-Kelvin
+	StatusBits uint32
+	Noise      uint16 // written into words the recorder must ignore
 }
 
 func (t Tel) TimeOn() time.Duration      { return time.Duration(t.TimeOnMs) * time.Millisecond }
